@@ -82,13 +82,15 @@ pub fn jobs(quick: bool) -> Vec<(Arc<Scenario>, RunSpec, usize)> {
         ("one", vec![Entry::dir("src"), Entry::file("src/a", "0123456789")]),
         ("two", vec![Entry::dir("src"), Entry::file("src/a", "0123456789"), Entry::file("src/b", "abcdef")]),
         ("two-one-empty", vec![Entry::dir("src"), Entry::file("src/a", "0123456789"), Entry::file("src/e", "")]),
+        ("sparse", vec![Entry::dir("src"), Entry::new("src/s", crate::scen::Kind::File(crate::scen::Content::Layout { unit: 4096, units: vec![true, false, true], tail: 0, seed: 6 }))]),
+        ("sparse-and-dense", vec![Entry::dir("src"), Entry::new("src/s", crate::scen::Kind::File(crate::scen::Content::Layout { unit: 4096, units: vec![false, true], tail: 0, seed: 7 })), Entry::file("src/a", "0123456789")]),
         ("overwrite", vec![Entry::dir("src"), Entry::file("src/a", "0123456789"), Entry::dir("dst"), Entry::file("dst/a", "previous longer content")]),
     ];
     let mut out = vec![];
     for d in drivers() {
         for mode in ["never", "auto", "always"] {
             for (tn, tree) in &trees {
-                let args: Vec<&str> = if *tn == "overwrite" { vec!["-r", "-T", "--reflink", mode, "--driver", d, "-w", "2", "--block-size", "4", "src", "dst"] } else { vec!["-r", "--reflink", mode, "--driver", d, "-w", "2", "--block-size", "4", "src", "dst"] };
+                let args: Vec<&str> = if *tn == "overwrite" { vec!["-r", "-T", "--reflink", mode, "--driver", d, "-w", "2", "--block-size", "4096", "src", "dst"] } else { vec!["-r", "--reflink", mode, "--driver", d, "-w", "2", "--block-size", "4096", "src", "dst"] };
                 let s = Arc::new(Scenario::new(&format!("reflink-{}-{}-{}", mode, tn, d), tree.clone(), &args));
                 let nfiles = tree.iter().filter(|e| e.path.starts_with("src/")).count();
                 for a1 in &answers {
